@@ -23,7 +23,7 @@ def main():
     print('proof ok=%s theorems=%d broken=%s' % (st['ok'], len(st['theorems']), st['broken']))
     axioms = sorted(set(a for v in st['assumptions'].values() for a in (v or [])))
     print('axioms:', axioms)
-    gen_asset.extra(ctx, out)
+    gen_asset.extra(ctx, out, keys='all')
     print('evaluations=%d nontrivial=%d disagreements=%d corr_errors=%d failures=%d wall=%.1fs' % (
         out.evaluations, out.nontrivial, len(out.disagreements), len(out.corr_errors), len(out.failures),
         time.time() - t0))
